@@ -202,6 +202,7 @@ func runC08(c *Ctx) {
 	c.Rule("O8.4", "bound reached => exit, no spin: from the edge on which the limit comparison says 'reached', every path (under the facts known on that edge) reaches a function exit without going round a loop")
 	c.Rule("O8.5", "every blocking send observes cancellation: each send of ammo in a Provider.Run call tree is a select case next to a <-ctx.Done() case that leads to return")
 	c.Rule("O8.6", "cancellation is observed on every cycle: every loop in a Provider.Run call tree passes a context observation, or is a counted loop / consumes input from a scanner (named idioms), or is listed with a reason")
+	c.Rule("O8.7", "a cancelled provider ends with a context error the engine recognises: in every Provider.Run call tree an error that may be ctx.Err() - the result of ctx.Err() or the error of a callee that can return it - is never wrapped with fmt.Errorf / xerrors.Errorf (errutil.IsCtxError compares ctx.Err() with pkg/errors.Cause(err), which does not see through %w) unless the wrap is on the edge where errors.Is(err, context.Canceled) is false; the engine cancels the run context itself at the normal end of every run, so a wrapped cancellation turns a finished run into 'provider failed'")
 	c.Rule("O3.7", "queue semantics: Acquire reports ok=false only on the closed-channel edge (named exception: request build / middleware errors of the HTTP provider)")
 	P := c.P
 	provs := providers(c, "O8.3")
@@ -317,6 +318,7 @@ func runC08(c *Ctx) {
 	c.Floor("O8.6", "loops in provider call trees", nLoops, 10)
 	c.Floor("O8.1", "limit/passes comparisons in provider call trees", nTests, 12)
 	c08Delivery(c, provs)
+	c08CtxErrors(c, provs)
 }
 
 // isAmmoChan: the channel is the provider's queue field (or any field channel of ammo).
@@ -1077,4 +1079,178 @@ func incrementOf(fn *ssa.Function, counter ssa.Value) func(ssa.Instruction) bool
 		}
 	}
 	return func(ssa.Instruction) bool { return false }
+}
+
+
+// c08Reasoned: wraps of a possible context error that are accepted, by function key, with the reason.
+var c08CtxWrapReasoned = map[string]string{
+	"(*components/providers/http/provider.Provider).loadAmmo<-LoadAmmo": "the preload happens before any ammo is delivered: every instance is still blocked in Acquire, so the engine's own end-of-run cancellation cannot arrive during it (only with zero started instances); an outside cancellation fails the run anyway",
+}
+
+// c08CtxErrors decides O8.7.
+func c08CtxErrors(c *Ctx, provs []*provider) {
+	P := c.P
+	sent := &Sentinels{P: P}
+	inTree := map[*ssa.Function]bool{}
+	var fns []*ssa.Function
+	for _, pr := range provs {
+		for _, f := range pr.Tree {
+			if !inTree[f] {
+				inTree[f] = true
+				fns = append(fns, f)
+			}
+		}
+	}
+	errT := types.Universe.Lookup("error").Type()
+	isCtxErrCall := func(v ssa.Value) bool {
+		cl, ok := v.(*ssa.Call)
+		if !ok || !cl.Call.IsInvoke() || cl.Call.Method.Name() != "Err" {
+			return false
+		}
+		p, n := NamedOf(cl.Call.Value.Type())
+		return p == "context" && n == "Context"
+	}
+	// may[fn]: some error result of fn may be ctx.Err() (fixpoint over the trees)
+	may := map[*ssa.Function]bool{}
+	carries := func(v ssa.Value) bool {
+		return SliceAny(v, func(r ssa.Value) bool {
+			if isCtxErrCall(r) {
+				return true
+			}
+			cl, _ := CallOfValue(r)
+			if cl == nil || !types.Identical(r.Type(), errT) && !isTupleWithError(cl) {
+				return false
+			}
+			if _, isEx := r.(*ssa.Extract); isEx && !types.Identical(r.Type(), errT) {
+				return false
+			}
+			for _, callee := range CalleesOf(sent, &cl.Call) {
+				if may[callee] {
+					return true
+				}
+			}
+			return false
+		})
+	}
+	for changed := true; changed; {
+		changed = false
+		for _, f := range fns {
+			if may[f] {
+				continue
+			}
+			EachInstr(f, func(in ssa.Instruction) {
+				ret, ok := in.(*ssa.Return)
+				if !ok || may[f] {
+					return
+				}
+				for _, r := range ret.Results {
+					if types.Identical(r.Type(), errT) && carries(r) {
+						may[f] = true
+						changed = true
+					}
+				}
+			})
+		}
+	}
+	isCanceledTest := func(v ssa.Value, subject ssa.Value) bool {
+		cl, ok := v.(*ssa.Call)
+		if !ok || !MatchCC(&cl.Call, Spec{"errors", "", "Is"}) || len(cl.Call.Args) != 2 {
+			return false
+		}
+		u, ok := cl.Call.Args[1].(*ssa.UnOp)
+		if !ok {
+			return false
+		}
+		g, ok := u.X.(*ssa.Global)
+		return ok && g.Name() == "Canceled" && g.Pkg.Pkg.Path() == "context"
+	}
+	nWraps, nCarry := 0, 0
+	for _, f := range fns {
+		EachInstr(f, func(in ssa.Instruction) {
+			cl, ok := in.(*ssa.Call)
+			if !ok || !MatchCC(&cl.Call, Spec{"fmt", "", "Errorf"}, Spec{"golang.org/x/xerrors", "", "Errorf"}) {
+				return
+			}
+			nWraps++
+			wrapsCtx := false
+			src := ""
+			var others []ssa.Value // error operands that cannot be the context's
+			eachOperand := func(f func(v ssa.Value)) {
+				for _, a := range cl.Call.Args[1:] {
+					SliceAny(a, func(r ssa.Value) bool {
+						if types.Identical(r.Type(), errT) {
+							if _, isMI := r.(*ssa.MakeInterface); !isMI {
+								f(r)
+								return false
+							}
+						}
+						return false
+					})
+				}
+			}
+			eachOperand(func(v ssa.Value) {
+				if carries(v) {
+					wrapsCtx = true
+					SliceAny(v, func(r ssa.Value) bool {
+						if c2, _ := CallOfValue(r); c2 != nil && src == "" {
+							if c2.Call.IsInvoke() {
+								src = c2.Call.Method.Name()
+							} else if c2.Call.StaticCallee() != nil {
+								src = c2.Call.StaticCallee().Name()
+							}
+						}
+						return false
+					})
+				} else if _, isPhi := v.(*ssa.Phi); !isPhi {
+					others = append(others, v)
+				}
+			})
+			if !wrapsCtx {
+				return
+			}
+			// a second, genuine error joined in (close failed as well): the run did fail
+			joined := false
+			for _, o := range others {
+				for _, f := range CmpFactsAt(cl) {
+					if f.Op == token.NEQ && (f.X == o && IsNilConst(f.Y) || f.Y == o && IsNilConst(f.X)) {
+						joined = true
+					}
+				}
+			}
+			nCarry++
+			k := fk(f) + ":possible-context-error-wrapped"
+			notCanceled := false
+			for _, bf := range BoolFactsAt(cl) {
+				if !bf.Val && isCanceledTest(bf.Subj, nil) {
+					notCanceled = true
+				}
+			}
+			switch {
+			case notCanceled:
+				c.OK("O8.7", k, cl.Pos(), "wrapped only where errors.Is(err, context.Canceled) is false")
+			case joined:
+				c.OK("O8.7", k, cl.Pos(), "joined with another error that is non-nil on this path: a failure of its own")
+			case c08CtxWrapReasoned[fk(f)+"<-"+src] != "":
+				c.OK("O8.7", k, cl.Pos(), "reasoned exception: "+c08CtxWrapReasoned[fk(f)+"<-"+src])
+			default:
+				c.Bad("O8.7", k, cl.Pos(), "an error that may be the run context's cancellation is wrapped with %w: errutil.IsCtxError (pkg/errors.Cause) does not see through it, so the engine reports 'provider failed' when it cancels a finished run")
+			}
+		})
+	}
+	c.Note("O8.7: %d Errorf wraps in provider call trees, %d of them of a possible context error; %d functions may return ctx.Err()", nWraps, nCarry, len(may))
+	c.Floor("O8.7", "wraps of a possible context error examined", nCarry, 4)
+}
+
+func isTupleWithError(cl *ssa.Call) bool {
+	t, ok := cl.Type().(*types.Tuple)
+	if !ok {
+		return false
+	}
+	errT := types.Universe.Lookup("error").Type()
+	for i := 0; i < t.Len(); i++ {
+		if types.Identical(t.At(i).Type(), errT) {
+			return true
+		}
+	}
+	return false
 }
